@@ -1,5 +1,7 @@
 """C01 - trash-put conserves data: each argument ends fully trashed or untouched."""
 import copy
+import itertools
+import os
 
 import engine
 import putlib
@@ -19,6 +21,9 @@ RULE = ("trace level: every generated trash-put run must issue exactly the opera
         "distinct = (kinds, outcome per argument, mode, exit, layout class).")
 ASSUMPTIONS = ["arguments are pairwise unrelated (none an ancestor, alias or duplicate of another) when judged individually",
                "the empty skeleton <td>, <td>/files, <td>/info that a failed attempt created on demand is not 'something new for the argument'"]
+
+
+RULE += ' Directed tables since round 8: an argument inside a later argument (both trashed in command-line order, exit 0) and a trash directory inside the argument (--trash-dir below it, ~/.local, ~: reported or trashed elsewhere, never an info file without payload).'
 
 
 def monitors(run, scn, res, jobs_put, jobs_skip):
@@ -111,6 +116,42 @@ def run(run, thorough):
     engine.run_monitors(run, 'put-monitor', jobs_put, 'the put-discipline monitor (Coq) rejects the implementation trace', 'put-discipline', silent=True)
     engine.run_monitors(run, 'skip-monitor', jobs_skip, 'the untouched-arguments monitor (Coq, C01) rejects the implementation trace: a mutation for '
                         'a dot entry, a nonexistent path or a declined argument', 'mutation-for-skipped-argument')
+    # the trash directory lies INSIDE the directory being trashed (trash-put ~/.local, --trash-dir below the argument): shutil.move refuses to
+    # move a directory into itself - after the info file was written.  Reported or trashed elsewhere, no info file may describe nothing
+    nest = []
+    for td_exists, spelled, extra in itertools.product((False, True), ('/home/u/w/dir', 'w/dir', 'w/dir/'), ([], ['-v'])):
+        tree = [['d', '/home/u', 0o755], ['d', '/home/u/w/dir', 0o755], ['f', '/home/u/w/dir/keep', 'keep me'], ['d', '/home/u/w/dir/sub', 0o755]]
+        if td_exists:
+            tree += [['d', '/home/u/w/dir/td/info', 0o700], ['d', '/home/u/w/dir/td/files', 0o700]]
+        nest.append({'tree': tree, 'mounts': [], 'cwd': '/home/u', 'uid': 0, 'env': {'HOME': '/home/u', 'TRASH_VOLUMES': '/'},
+                     'judge_meta': {'family': 'selfnest', 'arg': '/home/u/w/dir'},
+                     'steps': [{'cmd': 'put', 'argv': extra + ['--trash-dir', '/home/u/w/dir/td', '--', spelled], 'now': [2024, 5, 6, 7, 8, 9, 0]}]})
+    for homearg in ('/home/u/.local', '/home/u/.local/share', '/home/u'):
+        nest.append({'tree': [['d', '/home/u', 0o755], ['d', '/home/u/.local/share', 0o755], ['f', '/home/u/.local/share/keep', 'keep me'], ['d', '/.Trash-0', 0o700]],
+                     'mounts': [], 'cwd': '/', 'uid': 0, 'env': {'HOME': '/home/u', 'TRASH_VOLUMES': '/'},
+                     'judge_meta': {'family': 'selfnest', 'arg': homearg},
+                     'steps': [{'cmd': 'put', 'argv': ['--', homearg], 'now': [2024, 5, 6, 7, 8, 9, 0]}]})
+    for scn, res in zip(nest, sandbox.execute_many(nest)):
+        if res.get('harness_error') or not res.get('steps'):
+            run.fail('harness', 'sandbox failure', {'error': res.get('harness_error'), 'scenario': scn})
+            continue
+        judge_selfnest(run, scn, res)
+    # one argument lies inside a later one (trash-put dir/a ./dir/): arguments are handled in command-line order, so the inner one gets
+    # its own entry first and the outer one is trashed without it - both succeed
+    over = []
+    for inner, outer in (('dir/a', './dir/'), ('dir/a', 'dir//'), ('/home/u/dir/a', '/home/u/./dir'), ('dir/sub', './dir/'), ('dir/sub/x', './dir/sub/'),
+                         ('dir/a', '../u/dir')):
+        over.append({'tree': [['d', '/home/u', 0o755], ['d', '/home/u/dir', 0o755], ['f', '/home/u/dir/a', 'a'], ['f', '/home/u/dir/b', 'b'],
+                              ['d', '/home/u/dir/sub', 0o755], ['f', '/home/u/dir/sub/x', 'x']],
+                     'mounts': [], 'cwd': '/home/u', 'uid': 0, 'env': {'HOME': '/home/u', 'TRASH_VOLUMES': '/'},
+                     'judge_meta': {'family': 'overlap', 'inner': os.path.normpath(os.path.join('/home/u', inner)),
+                                    'outer': os.path.normpath(os.path.join('/home/u', outer))},
+                     'steps': [{'cmd': 'put', 'argv': ['--', inner, outer], 'now': [2024, 5, 6, 7, 8, 9, 0]}]})
+    for scn, res in zip(over, sandbox.execute_many(over)):
+        if res.get('harness_error') or not res.get('steps'):
+            run.fail('harness', 'sandbox failure', {'error': res.get('harness_error'), 'scenario': scn})
+            continue
+        judge_overlap(run, scn, res)
     # the known finding: '..' after a symlinked directory
     known = {'tree': [['d', '/home/u', 0o755], ['d', '/other/dir', 0o755], ['f', '/other/x', 'theirs'], ['f', '/home/u/x', 'mine'],
                       ['l', '/home/u/link', '/other/dir']], 'mounts': [], 'cwd': '/home/u', 'uid': 0,
@@ -126,10 +167,54 @@ def run(run, thorough):
         run.sample({'level': 'state', 'argv': [esc(a) for a in out[0][0]['steps'][0]['argv']], 'cwd': out[0][0]['cwd']})
 
 
+def judge_selfnest(run, scn, res, section='trash-dir-inside-argument'):
+    run.count(section)
+    o = res['steps'][0]
+    before, after = res['before'], o['after']
+    arg = scn['judge_meta']['arg']
+    case = {'scenario': scn, 'exit': o['exit'], 'exc': o['exc'], 'stderr': o['stderr'][-400:]}
+    # an info file, wherever it lies now, whose payload is not next to it
+    stray = [p for p in after if p.endswith('.trashinfo') and os.path.basename(os.path.dirname(p)) == 'info' and after[p][0] == 'f'
+             and os.path.dirname(os.path.dirname(p)) + '/files/' + os.path.basename(p)[:-10] not in after]
+    if stray:
+        run.fail('oracle', 'the trash directory lies inside the argument: an info file was left that describes no payload',
+                 dict(case, stray=[esc(p) for p in stray]), key='stray-info', section=section)
+    here = all(p in after and after[p][:1] == before[p][:1] and (before[p][0] != 'f' or after[p] == before[p]) for p in before if engine.under(p, arg))
+    moved = [p for p in after if p.endswith('/files/' + os.path.basename(arg)) and p not in before]
+    if o['exit'] == 0 and (not moved or arg in after):
+        run.fail('oracle', 'exit 0, but the argument was not trashed', case, key='success-without-entry', section=section)
+    if o['exit'] != 0 and not here:
+        run.fail('oracle', 'failure reported, but the argument is not in place and whole', case, key='failed-but-touched', section=section)
+    if o['exc'] is not None:
+        run.fail('oracle', 'trash-put ended with an uncaught exception', case, key='uncaught-exception', section=section)
+    run.nontriv(('selfnest', arg, o['exit'], bool(moved), scn['steps'][0]['argv'][0]))
+
+
+def judge_overlap(run, scn, res, section='argument-inside-a-later-one'):
+    run.count(section)
+    o = res['steps'][0]
+    before, after = res['before'], o['after']
+    jm = scn['judge_meta']
+    td = '/home/u/.local/share/Trash'
+    ents = engine.entries_of(after, td)
+    paths = sorted((e['info'] or b'').split(b'\n')[1][5:].decode() for e in ents.values() if e['info'] and e['payload'] is not None and len((e['info'] or b'').split(b'\n')) > 1)
+    case = {'scenario': scn, 'exit': o['exit'], 'stderr': o['stderr'][-400:], 'recorded': paths}
+    if o['exit'] != 0 or paths != sorted([jm['inner'], jm['outer']]) or jm['outer'] in after:
+        run.fail('oracle', 'an argument inside a later argument: both must be trashed, each with its own entry, in command-line order (exit 0)',
+                 case, key='overlapping-arguments', section=section)
+    run.nontriv(('overlap', jm['inner'], scn['steps'][0]['argv'][-1], o['exit']))
+
+
 def replay(run, payload):
     case = payload.get('case') or {}
     scn = case.get('scenario')
     if not scn:
+        return
+    if (scn.get('judge_meta') or {}).get('family') == 'overlap':
+        judge_overlap(run, scn, sandbox.execute(scn), 'replay')
+        return
+    if (scn.get('judge_meta') or {}).get('family') == 'selfnest':
+        judge_selfnest(run, scn, sandbox.execute(scn), 'replay')
         return
     res = sandbox.execute(scn)
     o = res['steps'][0]
